@@ -38,13 +38,14 @@ def run(ctx):
     ctx.explanation = ('Structural rules over cache_over_ip.cpp, tcp_cache_client.cpp, tcp_connector.cpp, tcp_cache_server.cpp and the generation stamp in mem_cache: an L1 hit is always revalidated with the '
                        'generation it was stored under, every L1 copy is stored under the server generation, invalidations are broadcast, the server answers uptodate only for an equal generation, '
                        'sender and receiver of each message agree on the header fields, and the server slices its input only past the length checks.')
-    P = load(ctx, ['src/cache_over_ip.cpp', 'src/tcp_cache_client.cpp', 'src/tcp_connector.cpp', 'src/tcp_cache_server.cpp', 'src/cache_storage.cpp'])
+    P = load(ctx, ['src/cache_over_ip.cpp', 'src/tcp_cache_client.cpp', 'src/tcp_connector.cpp', 'src/tcp_cache_server.cpp', 'src/cache_storage.cpp', 'src/tcp_messenger.cpp'])
     R1 = ctx.rule('C10.R1', 'cache_over_ip::fetch: every hit is (re)validated by the server; L1 copies carry the server generation; not_found purges L1')
     R2 = ctx.rule('C10.R2', 'rise / clear are broadcast to all servers; store / fetch go to the server selected by the key hash')
     R3 = ctx.rule('C10.R3', 'server: uptodate only for an equal generation of a present entry; no_data exactly on a miss')
     R4 = ctx.rule('C10.R4', 'every store gets a fresh generation; the counter is written nowhere else')
     R5 = ctx.rule('C10.R5', 'wire format: receiver reads only header fields the sender wrote; lengths describe the payload; the value is always taken from the reply')
     R6 = ctx.rule('C10.R6', 'server slices its input buffer only past the length checks')
+    R7 = ctx.rule('C10.R7', 'messenger::transmit returns normally only after the request was written and the reply read on the same connection (a reconnect re-sends or throws, never drops the request)')
 
     # ---------------- R1
     fe = P.fn(OI + '::fetch')
@@ -243,11 +244,37 @@ def run(ctx):
     rs = [i for i in q.field_calls(oh, 'session::data_in_', 'resize')]
     ctx.check(len(rs) == 1 and any(x.endswith('tcp_operation_header::size') for x in oh.subtree_refs(rs[0])), R6, 'on_header_in:buffer-sized-by-header', 'input buffer is not sized by the announced payload size', oh.where)
 
+
+    # ---------------- R7 transport: no silent drop
+    tm = P.fn('cppcms::impl::messenger::transmit')
+    wr = [i for i in tm.calls() if (tm.bcallee(i) or '').endswith('stream_socket::write')]
+    rd = [i for i in tm.calls() if (tm.bcallee(i) or '').endswith('stream_socket::read')]
+    ctx.require(wr and rd, 'C10.R7: messenger::transmit does not write / read the socket')
+    flags = {}
+    for i in tm.all_nodes():
+        n = tm.N(i)
+        if n['k'] == 'BinaryOperator' and n.get('op') == '=' and tm.const_value(n['ch'][1]) == 1 and (tm.ref_of(n['ch'][0]) or '').startswith('v:'):
+            flags.setdefault(tm.ref_of(n['ch'][0]), []).append(i)
+    done = [v for v, ws in flags.items() if all(q.before(tm, wr[0], w) and q.before(tm, rd[0], w) for w in ws) and
+            all(v_ is None or tm.const_value(v_) in (0, 1) for (_, v_) in tm.defs_of_var(v))]
+    ctx.check(len(done) == 1, R7, 'transmit:completion-flag', 'no flag that is set only after the request was written and the reply header read', tm.where)
+    if len(done) == 1:
+        dv = done[0]
+        g_done = tm.gate_edges(lambda atom, pol: tm.N(atom)['k'] == 'DeclRefExpr' and tm.N(atom).get('ref') == dv and pol is True)
+        # the edge try-dispatch -> EXIT is an exception leaving the function, not a normal return
+        reach = tm.reachable_blocks(cut_edges=list(g_done) + [(b, tm.exit) for b in tm.try_blocks], cut_blocks=tm.abnormal_blocks())
+        ctx.check(bool(g_done) and tm.exit not in reach, R7, 'transmit:normal-return-only-when-exchange-complete', 'transmit can return without an exception although the request was not (re)sent and answered', tm.where)
+        # the reply body is read whenever the reply header announces one, before the flag is set
+        ctx.check(len(rd) >= 2 and all(q.before(tm, rd[0], r) for r in rd[1:]), R7, 'transmit:reply-header-then-body', 'reply body is not read after the reply header', tm.where)
+    cl = [i for i in tm.calls() if (tm.bcallee(i) or '').endswith('::close')]
+    cn = [i for i in tm.calls() if (tm.bcallee(i) or '').endswith('::connect')]
+    ctx.check(bool(cl) and bool(cn) and all(any(tm.N(a)['k'] == 'CXXCatchStmt' for a in tm.ancestors(i)) for i in cl + cn), R7, 'transmit:reconnect-only-in-failure-handler', 'connection is reopened outside the failure handler', tm.where)
     ctx.floor(R1, 16)
     ctx.floor(R2, 7)
     ctx.floor(R3, 4)
     ctx.floor(R4, 4)
     ctx.floor(R5, 10)
     ctx.floor(R6, 7)
+    ctx.floor(R7, 4)
     ctx.notes.append('observed, not claimed: on an L1 hit followed by a newer server version the returned trigger set is the union of the old L1 triggers and the new ones '
                      '(tags is not cleared between l1_->fetch and tcp()->fetch); trigger names containing NUL cannot survive the NUL-separated wire format.')
